@@ -30,7 +30,7 @@ REQUIRED_COUNTERS = ('packs', 'packs_that_freed_bytes', 'snapshot_views_compared
 
 
 def shards(tier, seed):
-    return split(tier, seed, 48, 2400, 45, 900)
+    return split(tier, seed, 480, 4800, 45, 900)
 
 
 def view(st, s, strong_refs):
